@@ -8,7 +8,7 @@
    same function on every generated program.  Class hierarchies, MROs and call chains are arbitrary
    (induction on the fuel of the call chain); OutOfFuel is excluded by `resolve .. = Ok R` and by the
    conclusion (CFuel is not a good outcome). *)
-From JV Require Import Lib.Base Model.Kwargs Model.KwargsGuard Model.C13KwargsFx Spec.KwargsSpec Proofs.KwargsProofs Proofs.C13FxProofs Proofs.C13FxTransfer.
+From JV Require Import Lib.Base Model.Kwargs Model.KwargsGuard Model.C13KwargsFx Spec.KwargsSpec Proofs.KwargsProofs Proofs.C13FxProofs Proofs.C13FxTransfer Proofs.C13Complete.
 
 (* ---- witnesses (the Python source each term was printed from is in the comment) ------------- *)
 (*
@@ -344,3 +344,112 @@ Theorem C13_resolver_sound_repaired :
     good_outcome (fst (call fuel P c kws)) = true.
 Proof. exact sound_class_fx. Qed.
 Print Assumptions C13_resolver_sound_repaired.
+
+(* ---- classes that INHERIT __init__ (round 6) -----------------------------------------------------
+   klass_top excludes every class without an __init__ of its own (class_agree: the unrepaired resolver
+   started the MRO walk at position 0 with the inherited function — finding inherited-init-positional,
+   repaired in /repo by 0af5536).  For the repaired resolver the hypothesis is klass_top_inh
+   (Model/C13KwargsFx.v): the frame of the __init__ found through the MRO, AT ITS OWN POSITION, is inside
+   the proved fragment.  Every program, class and fuel; hierarchies unbounded; the class may inherit
+   __init__ from any depth of a single- or multiple-inheritance hierarchy. *)
+Theorem C13_resolver_sound_inherited_init :
+  forall (fuel : nat) (P : prog) (c : nat) (R : list rparam) (kws : list str),
+    klass_top_inh fuel P c = 0%N ->
+    resolve_fx all_fixes fuel P c = Ok R ->
+    NoDup kws ->
+    (forall n, In n kws -> In n (names R)) ->
+    good_outcome (fst (call fuel P c kws)) = true.
+Proof. exact sound_class_inh. Qed.
+Print Assumptions C13_resolver_sound_inherited_init.
+
+(* the new hypothesis is weaker than the old one: C13_resolver_sound_repaired is the special case *)
+Theorem C13_inherited_guard_widens :
+  forall (fuel : nat) (P : prog) (c : nat), klass_top fuel P c = 0%N -> klass_top_inh fuel P c = 0%N.
+Proof. exact klass_top_inh_widens. Qed.
+Print Assumptions C13_inherited_guard_widens.
+
+(* and what is offered for such a class is what the faithful model offers for the inherited __init__ at its
+   position (so hardcoded_not_offered / keeps_type_and_default, stated per frame, speak about it too) *)
+Theorem C13_inherited_init_offers_frame :
+  forall (fuel : nat) (P : prog) (c : nat) (fr : frame),
+    class_frame Interp fuel P c = Ok (Some fr) -> klass fuel P fr = 0%N ->
+    resolve_fx all_fixes fuel P c = resolve_frame fuel P fr.
+Proof. exact resolve_inh_frame. Qed.
+Print Assumptions C13_inherited_init_offers_frame.
+
+(* the hypothesis is satisfiable exactly where the old one was not: the former witness of the finding
+   (C2(C1): pass; C1.__init__: super().__init__(0, **kwargs); C0.__init__(a, b)) is inside, offers b, C2(b=0) is ok *)
+Example C13_guard_inherited_init :
+  klass_top 40 P_inherited_init 2 = 2%N /\ klass_top_inh 40 P_inherited_init 2 = 0%N /\
+  option_map names (match resolve_fx all_fixes 40 P_inherited_init 2 with Ok r => Some r | Err _ => None end)
+    = Some [[98]%N] /\
+  fst (call 40 P_inherited_init 2 [[98]%N]) = COk.
+Proof. vm_compute. auto. Qed.
+
+(* ---- resolver_complete: "no reachable parameter is missing" (round 6) ------------------------------
+   Spec.call records WHO receives each keyword of the outermost call (`binding`: a declared parameter
+   that is not bound positionally, a kwargs.pop / kwargs.get anywhere on the call chain, a parameter
+   of a callee reached through **kwargs; names hard-coded at a forwarding call are the callee's own
+   business and are filtered out).  Under the same executable hypothesis as soundness, EVERY keyword
+   that anything receives in ANY call of the class — whatever the keyword set, whatever the outcome —
+   is a name the resolver offers.  Every program, class, fuel; induction on the call-chain fuel. *)
+Theorem C13_resolver_complete :
+  forall (fuel : nat) (P : prog) (c : nat) (R : list rparam) (kws : list str) (n : str),
+    klass_top fuel P c = 0%N ->
+    resolve fuel P c = Ok R ->
+    In n (map fst (snd (call fuel P c kws))) ->
+    In n (names R).
+Proof. exact complete_class. Qed.
+Print Assumptions C13_resolver_complete.
+
+(* the same for any callable reached on the way, with positional arguments already bound: a parameter
+   bound positionally is not counted as reachable by keyword *)
+Theorem C13_resolver_complete_frame :
+  forall (fuel : nat) (P : prog) (fr : frame) (R : list rparam) (npos : nat) (kws : list str) (n : str),
+    klass fuel P fr = 0%N ->
+    resolve_frame fuel P fr = Ok R ->
+    npos <= npos_cap (fr_fn fr) ->
+    In n (map fst (snd (call_frame fuel P fr npos kws))) ->
+    In n (names (skipn npos R)).
+Proof. exact complete_frame. Qed.
+Print Assumptions C13_resolver_complete_frame.
+
+(* the repaired resolver (what /repo runs today), classes that inherit __init__ included *)
+Theorem C13_resolver_complete_repaired :
+  forall (fuel : nat) (P : prog) (c : nat) (R : list rparam) (kws : list str) (n : str),
+    klass_top_inh fuel P c = 0%N ->
+    resolve_fx all_fixes fuel P c = Ok R ->
+    In n (map fst (snd (call fuel P c kws))) ->
+    In n (names R).
+Proof. exact complete_class_inh. Qed.
+Print Assumptions C13_resolver_complete_repaired.
+
+(* bindings are never vacuous: a keyword that is received is one that was passed (no hypothesis) *)
+Theorem C13_bindings_are_passed_keywords :
+  forall (fuel : nat) (P : prog) (fr : frame) (npos : nat) (kws : list str) (n : str),
+    In n (map fst (snd (call_frame fuel P fr npos kws))) -> In n kws.
+Proof. exact bindings_sub. Qed.
+Print Assumptions C13_bindings_are_passed_keywords.
+
+(* the statement is not vacuous and it is tight: on the cooperative diamond (inside the guard) the call with
+   all offered names succeeds and the names received are exactly the names offered, in that order *)
+Example C13_complete_diamond_tight :
+  klass_top 40 P_diamond 3 = 0%N /\ match resolve 40 P_diamond 3 with
+  | Ok R => fst (call 40 P_diamond 3 (names R)) = COk /\ map fst (snd (call 40 P_diamond 3 (names R))) = names R /\ negb (is_nil R) = true
+  | Err _ => False
+  end.
+Proof. vm_compute. auto. Qed.
+
+(* link to the executable predicate the judge evaluates on the OBSERVED list (Spec.complete_b = "calling with
+   all offered names is not `missing`" && complete_names_b): in the guard its second conjunct is a theorem
+   about the resolver model, so an observed list that the model reproduces can only fail it by a broken tie *)
+Theorem C13_resolver_complete_spec :
+  forall (fuel : nat) (P : prog) (c : nat) (R : list rparam),
+    klass_top_inh fuel P c = 0%N -> resolve_fx all_fixes fuel P c = Ok R ->
+    complete_names_b fuel P c R = true /\ complete_b fuel P c R =
+      (negb (outcome_eqb (fst (call fuel P c (names R))) CMissing) && complete_names_b fuel P c R).
+Proof.
+  exact (fun fuel P c R Hk Hr =>
+           conj (complete_names_class_inh fuel P c R Hk Hr) (complete_b_split fuel P c R)).
+Qed.
+Print Assumptions C13_resolver_complete_spec.
